@@ -36,6 +36,10 @@ pub enum PCase {
     Mutated { file: CFile, muts: Vec<PMut>, fix: bool },
     Dump { idx: u16, muts: Vec<PMut>, fix: bool },
     Random(Vec<u8>),
+    /// grammar-level mutation of a generated file (well-formed TLV structure, checksums recomputed)
+    Tree { file: CFile, muts: Vec<super::tree::TMut> },
+    /// the same on a real meter payload
+    TreeDump { idx: u16, muts: Vec<super::tree::TMut> },
 }
 
 #[derive(Debug, Clone)]
@@ -65,6 +69,24 @@ pub fn lower(c: &PCase) -> PInput {
             PInput { bytes, how: format!("dump[{}]{}", labels.join("+"), if *fix { format!(" crc-fixed:{}", patched) } else { String::new() }) }
         }
         PCase::Random(v) => PInput { bytes: v.clone(), how: "random".into() },
+        PCase::Tree { file, muts } => {
+            let w = write(file);
+            match super::tree::mutate_tree(&w.bytes, muts) {
+                Some((bytes, labels, patched)) => PInput { bytes, how: format!("tree[{}] crc-fixed:{}", labels.join("+"), patched) },
+                None => PInput { bytes: w.bytes, how: "valid".into() },
+            }
+        }
+        PCase::TreeDump { idx, muts } => {
+            let all = real_payloads();
+            if all.is_empty() {
+                return PInput { bytes: vec![], how: "dump-missing".into() };
+            }
+            let b = &all[((*idx as usize) * all.len()) >> 16];
+            match super::tree::mutate_tree(b, muts) {
+                Some((bytes, labels, patched)) => PInput { bytes, how: format!("treedump[{}] crc-fixed:{}", labels.join("+"), patched) },
+                None => PInput { bytes: b.clone(), how: "dump[] unparsed".into() },
+            }
+        }
     }
 }
 
@@ -72,10 +94,13 @@ pub fn lower(c: &PCase) -> PInput {
 pub fn pcase(big: bool, w: (u32, u32, u32, u32)) -> BoxedStrategy<PCase> {
     let file = if big { prop_oneof![3 => cfile(true), 1 => cfile_typical()].boxed() } else { prop_oneof![3 => cfile(false), 1 => cfile_typical()].boxed() };
     let file2 = if big { cfile(true).boxed() } else { cfile(false).boxed() };
+    let file3 = prop_oneof![2 => cfile(false), 1 => cfile_typical()];
     prop_oneof![
         w.0 => file2.prop_map(PCase::Valid),
         w.1 => (file, vec(pmut(), 1..3), any::<bool>()).prop_map(|(file, muts, fix)| PCase::Mutated { file, muts, fix }),
         w.2 => (any::<u16>(), vec(pmut(), 0..3), any::<bool>()).prop_map(|(idx, muts, fix)| PCase::Dump { idx, muts, fix }),
+        w.1 => (file3, vec(super::tree::tmut(), 1..3)).prop_map(|(file, muts)| PCase::Tree { file, muts }),
+        w.2 => (any::<u16>(), vec(super::tree::tmut(), 1..3)).prop_map(|(idx, muts)| PCase::TreeDump { idx, muts }),
         w.3 => vec(prop_oneof![3 => any::<u8>(), 1 => Just(0x76u8), 1 => Just(0x01u8), 1 => Just(0x00u8), 1 => Just(0x72u8), 1 => Just(0x62u8)], 0..80).prop_map(PCase::Random),
     ]
     .boxed()
